@@ -67,7 +67,13 @@ EvalOK(e) ==
          /\ \A i \in 1..Len(e.x) : SlotOK(e, i)
          /\ e.lvlout = e.lvlin - Needed(e)
          /\ e.scdiff = 0
-         /\ e.inok
+         /\ e.inok                    \* the input ciphertext is left intact
+         /\ e.polyok                  \* so is the polynomial (vector) argument
+         /\ e.again                   \* and the same call on the same evaluator returns the same ciphertext again
+
+\* frame condition alone (decided under C09): whenever the call is admitted and answers, its arguments are intact
+\* and the evaluator carries no state from one call into the next
+FrameOK(e) == (~e.err /\ ~e.panic) => (e.inok /\ e.polyok /\ e.again)
 
 \* ---- documented change of basis for the Chebyshev interval [a, b]: u = scalar * x + constant, with
 \* scalar = 2/(b-a), constant = (-a-b)/(b-a); recorded as scalar*(b-a) and constant*(b-a) rounded to 2^-16
